@@ -31,6 +31,7 @@
 package main
 
 import (
+	"bytes"
 	"encoding/json"
 	"errors"
 	"fmt"
@@ -41,6 +42,7 @@ import (
 	"sync"
 	"sync/atomic"
 	"time"
+	"unsafe"
 
 	"github.com/whoisnian/glb/util/ioutil"
 
@@ -69,6 +71,44 @@ var (
 	bigStr = strings.Repeat("glb-progress-16b", maxSize/16)
 )
 
+// hugeSize bounds the payload of the deep (thorough-only) scenarios: one zero-filled buffer that is
+// never written nor stored, so it costs address space, not memory.
+const hugeSize = 1<<26 + 64
+
+var (
+	hugeOnce sync.Once
+	hugeBuf  []byte
+)
+
+func payloadB(n int) []byte {
+	if n <= maxSize {
+		return bigBuf[:n]
+	}
+	hugeOnce.Do(func() { hugeBuf = make([]byte, hugeSize) })
+	return hugeBuf[:n]
+}
+
+func payloadS(n int) string {
+	if n <= maxSize {
+		return bigStr[:n]
+	}
+	return unsafe.String(&payloadB(n)[0], n)
+}
+
+// how the writer goroutine issues an op
+const (
+	viaDirect      = iota // pw.Write / pw.WriteString
+	viaIOWriteStr         // io.WriteString(pw, s)
+	viaCopyWholly         // io.Copy(pw, bytes.Reader): the reader's WriteTo hands pw one Write
+	viaCopyChunked        // io.Copy(pw, plain reader): 32 KiB chunks, several Writes per op
+)
+
+var viaNames = []string{"direct", "io.WriteString", "io.Copy(WriterTo)", "io.Copy(chunked)"}
+
+type plainReader struct{ r io.Reader } // hides WriterTo
+
+func (p plainReader) Read(b []byte) (int, error) { return p.r.Read(b) }
+
 // Op is one call of the writer goroutine.
 type Op struct {
 	Str   bool   `json:"str,omitempty"`   // WriteString instead of Write
@@ -76,6 +116,8 @@ type Op struct {
 	Beh   int    `json:"beh,omitempty"`   // behaviour of the wrapped writer during this op
 	Cut   uint32 `json:"cut,omitempty"`   // selects the short / partial count
 	Yield int    `json:"yield,omitempty"` // runtime.Gosched() calls of the writer after the op (stimulus)
+	Via   int    `json:"via,omitempty"`   // viaDirect .. viaCopyChunked (deep scenarios)
+	Block int    `json:"block,omitempty"` // > 0: the wrapped writer parks until a helper goroutine releases it after Block yields
 }
 
 // Consumer scripts the receiving side. Indices are op indices of the writer; a signal for
@@ -86,6 +128,11 @@ type Consumer struct {
 	PauseAt  int    `json:"pause_at"`  // -1: never; consumer stops receiving when the writer reaches this op
 	ResumeAt int    `json:"resume_at"` // consumer resumes when the writer reaches this op
 	Yields   int    `json:"yields"`    // runtime.Gosched() calls between two receives
+	// deep scenarios: after every Burst receives the consumer is away for Gap yields; Refetch: it
+	// asks for Status() again before every receive
+	Burst   int  `json:"burst,omitempty"`
+	Gap     int  `json:"gap,omitempty"`
+	Refetch bool `json:"refetch,omitempty"`
 	// Lazy: the consumer asks for the Status() channel only when it starts receiving (a consumer
 	// that is absent until Close has then never touched the ProgressWriter before Close began).
 	Lazy bool `json:"lazy,omitempty"`
@@ -93,8 +140,10 @@ type Consumer struct {
 
 // Case is one replayable scenario.
 type Case struct {
-	WKind string   `json:"wkind"` // label of the wrapped writer: full|shortErr|shortNil|fail0|failN|mixed
-	SW    bool     `json:"sw"`    // wrapped writer implements io.StringWriter
+	WKind string   `json:"wkind"`             // label of the wrapped writer: full|shortErr|shortNil|fail0|failN|mixed
+	SW    bool     `json:"sw"`                // wrapped writer implements io.StringWriter
+	RF    bool     `json:"rf,omitempty"`      // wrapped writer also implements io.ReaderFrom (deep scenarios)
+	Prof  string   `json:"profile,omitempty"` // deep scenarios: history | pow2 | boundary | stream
 	Ops   []Op     `json:"ops"`
 	Cons  Consumer `json:"consumer"`
 	Procs int      `json:"procs,omitempty"` // GOMAXPROCS the case was observed under (replay hint)
@@ -130,6 +179,12 @@ func (cs Case) nops() int {
 }
 
 func (o Op) method() string {
+	switch o.Via {
+	case viaIOWriteStr:
+		return "io.WriteString"
+	case viaCopyWholly, viaCopyChunked:
+		return "io.Copy"
+	}
 	if o.Str {
 		return "WriteString"
 	}
@@ -154,12 +209,29 @@ type sink struct {
 	calls    int
 	strCalls int
 	perBeh   [5]int
+	block    int // > 0: park in the next call until released (deep scenarios)
+	blocked  int
+	rfCalls  int
 	lastBeh  int // effective behaviour of the last call
 	lastN    int
 	lastErr  error
 }
 
 func (s *sink) do(l int, viaString bool) (int, error) {
+	if k := s.block; k > 0 {
+		// a wrapped writer that blocks: the writer goroutine is parked inside the wrapped Write
+		// (not inside glb) until a helper lets it go
+		s.block = 0
+		s.blocked++
+		gate := make(chan struct{})
+		go func() {
+			for i := 0; i < k; i++ {
+				runtime.Gosched()
+			}
+			close(gate)
+		}()
+		<-gate
+	}
 	s.calls++
 	if viaString {
 		s.strCalls++
@@ -198,6 +270,24 @@ type sinkSW struct{ s *sink } // io.Writer + io.StringWriter
 
 func (w sinkSW) Write(p []byte) (int, error)       { return w.s.do(len(p), false) }
 func (w sinkSW) WriteString(x string) (int, error) { return w.s.do(len(x), true) }
+
+func (s *sink) readFrom(r io.Reader) (int64, error) {
+	s.rfCalls++
+	n, _ := io.Copy(io.Discard, r)
+	k, err := s.do(int(n), false)
+	return int64(k), err
+}
+
+type sinkRF struct{ s *sink } // io.Writer + io.ReaderFrom
+
+func (w sinkRF) Write(p []byte) (int, error)         { return w.s.do(len(p), false) }
+func (w sinkRF) ReadFrom(r io.Reader) (int64, error) { return w.s.readFrom(r) }
+
+type sinkSWRF struct{ s *sink } // io.Writer + io.StringWriter + io.ReaderFrom
+
+func (w sinkSWRF) Write(p []byte) (int, error)         { return w.s.do(len(p), false) }
+func (w sinkSWRF) WriteString(x string) (int, error)   { return w.s.do(len(x), true) }
+func (w sinkSWRF) ReadFrom(r io.Reader) (int64, error) { return w.s.readFrom(r) }
 
 // ---------------------------------------------------------------------------- scenario
 
@@ -304,16 +394,30 @@ func writerLoop(s *scen) {
 			s.fire(s.resumeSig, &s.resumeFired, &resumeDone)
 		}
 		s.progress.Store(int64(i))
-		s.sk.beh, s.sk.cut = op.Beh, op.Cut
+		s.sk.beh, s.sk.cut, s.sk.block = op.Beh, op.Cut, op.Block
 		c0 := s.sk.calls
 		var n int
 		var err error
-		if op.Str {
+		switch {
+		case op.Via == viaIOWriteStr:
 			where = "WriteString"
-			n, err = pw.WriteString(bigStr[:op.Size])
-		} else {
+			n, err = io.WriteString(pw, payloadS(op.Size))
+		case op.Via == viaCopyWholly:
 			where = "Write"
-			n, err = pw.Write(bigBuf[:op.Size])
+			var n64 int64
+			n64, err = io.Copy(pw, bytes.NewReader(payloadB(op.Size)))
+			n = int(n64)
+		case op.Via == viaCopyChunked:
+			where = "Write"
+			var n64 int64
+			n64, err = io.Copy(pw, plainReader{bytes.NewReader(payloadB(op.Size))})
+			n = int(n64)
+		case op.Str:
+			where = "WriteString"
+			n, err = pw.WriteString(payloadS(op.Size))
+		default:
+			where = "Write"
+			n, err = pw.Write(payloadB(op.Size))
 		}
 		where = "Size"
 		s.logs = append(s.logs, opLog{n: n, err: err, size: pw.Size(), sum: s.sk.total,
@@ -345,9 +449,25 @@ func consumerLoop(s *scen) {
 		ch = s.pw.Status()
 		s.lazyCh.Store(ch)
 	}
+	burst, gap, refetch, got := s.cs.Cons.Burst, s.cs.Cons.Gap, s.cs.Cons.Refetch, 0
+	away := func() {
+		for i := 0; i < y; i++ {
+			runtime.Gosched()
+		}
+		if burst > 0 {
+			if got++; got%burst == 0 {
+				for i := 0; i < gap; i++ {
+					runtime.Gosched()
+				}
+			}
+		}
+	}
 	if s.cs.Cons.PauseAt >= 0 {
 	phase1:
 		for {
+			if refetch {
+				ch = s.pw.Status()
+			}
 			select {
 			case v, ok := <-ch:
 				if !ok {
@@ -356,9 +476,7 @@ func consumerLoop(s *scen) {
 				}
 				s.recv = append(s.recv, v)
 				s.recvBefore++
-				for i := 0; i < y; i++ {
-					runtime.Gosched()
-				}
+				away()
 			case <-s.pauseSig:
 				break phase1
 			}
@@ -369,15 +487,16 @@ func consumerLoop(s *scen) {
 		s.cstate.Store(csRecv)
 	}
 	for {
+		if refetch {
+			ch = s.pw.Status()
+		}
 		v, ok := <-ch
 		if !ok {
 			s.sawClosed = true
 			return
 		}
 		s.recv = append(s.recv, v)
-		for i := 0; i < y; i++ {
-			runtime.Gosched()
-		}
+		away()
 	}
 }
 
@@ -727,11 +846,19 @@ type stats struct {
 	maxRecv, maxOps                         int64
 	strOpsSW, strOpsPlain                   int64
 	scenLong, longOps, longInter            int64
-	patterns                                map[uint64]struct{}
+	// deep (thorough-only) coverage
+	maxTotal, crossed31, crossed32, boundaryHits, recvAbove31 int64
+	via                                                       [4]int64
+	blockedCalls, rfCalls, burstyScen, refetchScen, lazyScen  int64
+	rfScen, multiCallOps                                      int64
+	prof                                                      map[string]int64
+	sizes                                                     map[int]struct{}
+	patterns                                                  map[uint64]struct{}
 }
 
 func newStats() *stats {
-	return &stats{scenKind: map[string]int64{}, scenKindInter: map[string]int64{}, patterns: map[uint64]struct{}{}}
+	return &stats{scenKind: map[string]int64{}, scenKindInter: map[string]int64{}, patterns: map[uint64]struct{}{},
+		prof: map[string]int64{}, sizes: map[int]struct{}{}}
 }
 
 func errStr(e error) string {
@@ -763,7 +890,7 @@ func runOnce(cs Case, st *stats) (res result) {
 	long := cs.LongN > 0 && len(cs.Ops) == 0
 	cs = cs.expand()
 	for i := range cs.Ops {
-		if cs.Ops[i].Size < 0 || cs.Ops[i].Size > maxSize || cs.Ops[i].Beh < 0 || cs.Ops[i].Beh > behFailN {
+		if cs.Ops[i].Size < 0 || cs.Ops[i].Size > hugeSize || cs.Ops[i].Beh < 0 || cs.Ops[i].Beh > behFailN || cs.Ops[i].Via < 0 || cs.Ops[i].Via > viaCopyChunked {
 			return result{inconclusive: fmt.Sprintf("malformed case: op %d out of range", i)}
 		}
 	}
@@ -772,7 +899,12 @@ func runOnce(cs Case, st *stats) (res result) {
 	s.writerDone, s.consumerDone = make(chan struct{}), make(chan struct{})
 	s.logs = make([]opLog, 0, len(cs.Ops))
 	var w io.Writer = sinkW{s.sk}
-	if cs.SW {
+	switch {
+	case cs.SW && cs.RF:
+		w = sinkSWRF{s.sk}
+	case cs.RF:
+		w = sinkRF{s.sk}
+	case cs.SW:
 		w = sinkSW{s.sk}
 	}
 	func() {
@@ -832,7 +964,7 @@ func (s *scen) check(st *stats) result {
 					l.size, swName(cs.SW), l.wcalls, l.wn, errStr(l.werr), l.n, errStr(l.err)),
 			}
 		}
-		if l.n != l.wn || l.err != l.werr {
+		if cs.Ops[i].Via <= viaIOWriteStr && (l.n != l.wn || l.err != l.werr) {
 			st.passthroughMismatch++ // not part of the statement: counted, not judged
 		}
 	}
@@ -932,6 +1064,9 @@ func (s *scen) check(st *stats) result {
 	if nops > st.maxOps {
 		st.maxOps = nops
 	}
+	if cs.Prof != "" {
+		s.deepStats(st, total)
+	}
 	if s.long {
 		st.scenLong++
 		st.longOps += nops
@@ -947,6 +1082,62 @@ func (s *scen) check(st *stats) result {
 		st.patterns[drv.HashStr(sb.String())] = struct{}{}
 	}
 	return result{}
+}
+
+var boundaryValues = func() map[int]bool {
+	m := map[int]bool{}
+	for _, t := range []int{1 << 31, 1 << 32, 1 << 33} {
+		m[t-1], m[t], m[t+1] = true, true, true
+	}
+	return m
+}()
+
+// deepStats records what the deep scenarios add to the coverage (observations only).
+func (s *scen) deepStats(st *stats, total int) {
+	cs := s.cs
+	st.prof[cs.Prof]++
+	if int64(total) > st.maxTotal {
+		st.maxTotal = int64(total)
+	}
+	if total >= 1<<31 {
+		st.crossed31++
+	}
+	if total >= 1<<32 {
+		st.crossed32++
+	}
+	for _, p := range s.sk.prefix {
+		if boundaryValues[p] {
+			st.boundaryHits++
+		}
+	}
+	for _, v := range s.recv {
+		if v >= 1<<31 {
+			st.recvAbove31++
+		}
+	}
+	for i, o := range cs.Ops {
+		st.via[o.Via]++
+		if len(st.sizes) < 200000 {
+			st.sizes[o.Size] = struct{}{}
+		}
+		if s.logs[i].wcalls > 1 {
+			st.multiCallOps++
+		}
+	}
+	st.blockedCalls += int64(s.sk.blocked)
+	st.rfCalls += int64(s.sk.rfCalls)
+	if cs.Cons.Burst > 0 {
+		st.burstyScen++
+	}
+	if cs.Cons.Refetch {
+		st.refetchScen++
+	}
+	if cs.Cons.Lazy {
+		st.lazyScen++
+	}
+	if cs.RF {
+		st.rfScen++
+	}
 }
 
 // runCase executes a scenario; an inconclusive watchdog is retried twice.
@@ -969,7 +1160,7 @@ type mon struct{}
 func (mon) Name() string { return "progress" }
 
 func (mon) Level(string) (string, string) {
-	return "exploration", "seeded random scenarios {wrapped writer kind full/shortErr/shortNil/fail0/failN/mixed × io.StringWriter or not} × {op list of Write/WriteString, sizes 0/1/7/4096/1MiB and random, ≤ 50 ops} × {consumer absent until Close, eager, slow, late start, stops-then-resumes}, run as real goroutines at GOMAXPROCS 1/2/4/16 plain and under -race; oracle offline over the writer log (n, err, Size(), Σn of the wrapped writer) and the consumer log; non-blocking decided from a goroutine snapshot, never from time; plus long scenarios (20000..100000 writes of 1..16 bytes next to an eager consumer) and lifetime batches (one or two small writes then Close, consumer busy during the last write, its first receive aligned with Close by a spin barrier with seeded offsets on either side); Write/Close never returning is decided from two identical consecutive goroutine snapshots of an at-rest state; distinct_nontrivial = distinct scenario shapes (writer kind, ops with method/size/behaviour, consumer script) with at least one op and a non-zero total"
+	return "exploration", "seeded random scenarios {wrapped writer kind full/shortErr/shortNil/fail0/failN/mixed × io.StringWriter or not} × {op list of Write/WriteString, sizes 0/1/7/4096/1MiB and random, ≤ 50 ops} × {consumer absent until Close, eager, slow, late start, stops-then-resumes}, run as real goroutines at GOMAXPROCS 1/2/4/16 plain and under -race; oracle offline over the writer log (n, err, Size(), Σn of the wrapped writer) and the consumer log; non-blocking decided from a goroutine snapshot, never from time; plus long scenarios (20000..100000 writes of 1..16 bytes next to an eager consumer) and lifetime batches (one or two small writes then Close, consumer busy during the last write, its first receive aligned with Close by a spin barrier with seeded offsets on either side); Write/Close never returning is decided from two identical consecutive goroutine snapshots of an at-rest state; thorough adds deep scenarios: seeded histories of 1000..8000 ops, sizes 2^k-1/2^k/2^k+1 up to 64 MiB, write sequences whose prefix sums land exactly on 2^31-1/2^31/2^31+1 and likewise around 2^32 and 2^33 (Size() is an int; totals up to 8 GiB), ops issued through io.WriteString / io.Copy (one op = several wrapped Writes), wrapped writers that also implement io.ReaderFrom or park inside Write until a helper releases them, consumers that are bursty, arrive at the last write or exactly at Close, fetch Status() late or again before every receive, long scenarios of up to 500000 writes, all at GOMAXPROCS 1/2/4/16, 1 or 4 scenarios at once, plain and under -race; distinct_nontrivial = distinct scenario shapes (writer kind, ops with method/size/behaviour, consumer script) with at least one op and a non-zero total"
 }
 
 func (mon) Assumptions(string) []string {
@@ -988,6 +1179,8 @@ type shardArgs struct {
 	Workers int  `json:"workers"`
 	Long    bool `json:"long,omitempty"` // long scenarios: 20000..100000 tiny writes, eager consumer
 	Life    bool `json:"life,omitempty"` // lifetime batch: Workers pairs x Count lifetimes each
+	Deep    bool `json:"deep,omitempty"` // deep scenarios (deep.go), thorough only
+	XL      bool `json:"xl,omitempty"`   // thorough: every 6th long scenario has 200000..500000 writes
 }
 
 var procsCycle = []int{1, 2, 4, 16}
@@ -996,8 +1189,9 @@ func (mon) Plan(prop, tier string, seed int64) []drv.Shard {
 	var out []drv.Shard
 	plain, per, racen, raceper, secs := 8, 250, 2, 150, 150
 	if tier == "thorough" {
-		plain, per, racen, raceper, secs = 16, 12500, 8, 5000, 600
+		plain, per, racen, raceper, secs = 16, 12500, 16, 25000, 3000
 	}
+	thorough := tier == "thorough"
 	for p := 0; p < plain; p++ {
 		procs := procsCycle[p%len(procsCycle)]
 		workers := 1
@@ -1011,7 +1205,7 @@ func (mon) Plan(prop, tier string, seed int64) []drv.Shard {
 	// long scenarios: GOMAXPROCS >= 2, alone and under 4 concurrent workers
 	longShards, longPer := 4, 6
 	if tier == "thorough" {
-		longShards, longPer = 8, 48
+		longShards, longPer = 8, 96
 	}
 	for p := 0; p < longShards; p++ {
 		procs := []int{2, 4, 16, 4, 2, 16, 4, 2}[p%8]
@@ -1020,7 +1214,7 @@ func (mon) Plan(prop, tier string, seed int64) []drv.Shard {
 		if workers > 1 {
 			n = longPer * 2
 		}
-		a, _ := json.Marshal(shardArgs{Part: 2000 + p, Count: n, Workers: workers, Long: true})
+		a, _ := json.Marshal(shardArgs{Part: 2000 + p, Count: n, Workers: workers, Long: true, XL: thorough})
 		out = append(out, drv.Shard{Name: fmt.Sprintf("long-%d-p%d-w%d", p, procs, workers), Args: a, Secs: secs,
 			Env: []string{fmt.Sprintf("GOMAXPROCS=%d", procs)}})
 	}
@@ -1031,11 +1225,11 @@ func (mon) Plan(prop, tier string, seed int64) []drv.Shard {
 	// lifetime batches: GOMAXPROCS >= 2, 1..4 concurrent pairs
 	lifeShards, lifePer := 4, 30000
 	if tier == "thorough" {
-		lifeShards, lifePer = 8, 300000
+		lifeShards, lifePer = 12, 400000
 	}
 	for p := 0; p < lifeShards; p++ {
-		procs := []int{2, 4, 16, 8, 4, 16, 2, 8}[p%8]
-		pairs := []int{1, 2, 4, 2, 1, 2, 1, 4}[p%8]
+		procs := []int{2, 4, 16, 8, 4, 16, 2, 8, 3, 16, 8, 2}[p%12]
+		pairs := []int{1, 2, 4, 2, 1, 2, 1, 4, 1, 8, 3, 1}[p%12]
 		a, _ := json.Marshal(shardArgs{Part: 4000 + p, Count: lifePer / pairs, Workers: pairs, Life: true})
 		out = append(out, drv.Shard{Name: fmt.Sprintf("life-%d-p%d-w%d", p, procs, pairs), Args: a, Secs: secs,
 			Env: []string{fmt.Sprintf("GOMAXPROCS=%d", procs)}})
@@ -1043,6 +1237,24 @@ func (mon) Plan(prop, tier string, seed int64) []drv.Shard {
 	{
 		a, _ := json.Marshal(shardArgs{Part: 5000, Count: lifePer / 20, Workers: 1, Life: true})
 		out = append(out, drv.Shard{Name: "life-race-p4-w1", Args: a, Secs: secs, Race: true, Env: []string{"GOMAXPROCS=4"}})
+	}
+	if thorough {
+		// deep scenarios (deep.go): GOMAXPROCS 1/2/4/16, alone and 4 at once, plain and -race
+		deepShards, deepPer, deepRace, deepRacePer := 24, 50000, 8, 5000
+		for p := 0; p < deepShards; p++ {
+			procs := procsCycle[p%len(procsCycle)]
+			workers := 1 + 3*(p/len(procsCycle)%2)
+			a, _ := json.Marshal(shardArgs{Part: 6000 + p, Count: deepPer, Workers: workers, Deep: true})
+			out = append(out, drv.Shard{Name: fmt.Sprintf("deep-%d-p%d-w%d", p, procs, workers), Args: a, Secs: secs,
+				Env: []string{fmt.Sprintf("GOMAXPROCS=%d", procs)}})
+		}
+		for p := 0; p < deepRace; p++ {
+			procs := []int{4, 2, 16, 1}[p%4]
+			workers := 1 + 3*(p/4%2)
+			a, _ := json.Marshal(shardArgs{Part: 7000 + p, Count: deepRacePer, Workers: workers, Deep: true})
+			out = append(out, drv.Shard{Name: fmt.Sprintf("deep-race-%d-p%d-w%d", p, procs, workers), Args: a, Secs: secs, Race: true,
+				Env: []string{fmt.Sprintf("GOMAXPROCS=%d", procs)}})
+		}
 	}
 	for p := 0; p < racen; p++ {
 		procs := []int{4, 2, 16, 1}[p%4]
@@ -1059,6 +1271,12 @@ func shapeKey(cs Case) string {
 	fmt.Fprintf(&sb, "%s/%v|%s:%d:%d:%d:%d|", cs.WKind, cs.SW, cs.Cons.Kind, cs.Cons.StartAt, cs.Cons.PauseAt, cs.Cons.ResumeAt, cs.Cons.Yields)
 	for _, o := range cs.Ops {
 		fmt.Fprintf(&sb, "%v.%d.%d;", o.Str, o.Size, o.Beh)
+		if o.Via != 0 || o.Block != 0 {
+			fmt.Fprintf(&sb, "v%d.b%d;", o.Via, o.Block)
+		}
+	}
+	if cs.Prof != "" {
+		fmt.Fprintf(&sb, "deep:%s:%v:%d:%d:%v:%v", cs.Prof, cs.RF, cs.Cons.Burst, cs.Cons.Gap, cs.Cons.Refetch, cs.Cons.Lazy)
 	}
 	if cs.LongN > 0 {
 		fmt.Fprintf(&sb, "long:%d:%d", cs.LongN, cs.LongSeed)
@@ -1108,6 +1326,11 @@ func (mn mon) Run(sh drv.Shard, c *drv.Ctx) {
 				var cs Case
 				if a.Long {
 					cs = genLong(r)
+					if a.XL && r.Intn(6) == 0 {
+						cs.LongN = 200000 + r.Intn(300001)
+					}
+				} else if a.Deep {
+					cs = genDeep(r)
 				} else {
 					cs = genCase(r)
 				}
@@ -1150,6 +1373,27 @@ func (mn mon) Run(sh drv.Shard, c *drv.Ctx) {
 		}
 		c.Add("bytes_reported", st.bytesReported)
 		c.Add("scen_long", st.scenLong)
+		if len(st.prof) > 0 {
+			for k, n := range st.prof {
+				c.Add("deep_scen_"+k, n)
+			}
+			c.MaxOf("deep_total_bytes_in_one_scenario", st.maxTotal)
+			c.Add("deep_scen_total_at_or_above_2^31", st.crossed31)
+			c.Add("deep_scen_total_at_or_above_2^32", st.crossed32)
+			c.Add("deep_prefix_sums_exactly_at_2^31|32|33_plus_minus_1", st.boundaryHits)
+			c.Add("deep_values_received_at_or_above_2^31", st.recvAbove31)
+			for v, n := range st.via {
+				c.Add("deep_ops_via_"+viaNames[v], n)
+			}
+			c.Add("deep_ops_with_several_wrapped_calls", st.multiCallOps)
+			c.Add("deep_wrapped_calls_that_blocked", st.blockedCalls)
+			c.Add("deep_wrapped_ReadFrom_calls", st.rfCalls)
+			c.Add("deep_scen_wrapped_is_ReaderFrom", st.rfScen)
+			c.Add("deep_scen_bursty_consumer", st.burstyScen)
+			c.Add("deep_scen_status_refetched_every_receive", st.refetchScen)
+			c.Add("deep_scen_status_fetched_late", st.lazyScen)
+			c.Add("deep_distinct_op_sizes(sum over workers)", int64(len(st.sizes)))
+		}
 		c.Add("long_ops", st.longOps)
 		c.Add("long_intermediate_values_received", st.longInter)
 		c.Add("size_checks", st.sizeChecks)
@@ -1254,6 +1498,17 @@ func (mon) Finish(prop, tier string, m *drv.Merged) (inc []string) {
 		"lifetimes_checked", "life_first_receive_started_before_Close_entered", "life_first_receive_started_after_Close_entered"} {
 		if m.Sum[k] == 0 {
 			inc = append(inc, "observed nothing of: "+k)
+		}
+	}
+	if tier == "thorough" {
+		for _, k := range []string{"deep_scen_history", "deep_scen_pow2", "deep_scen_boundary", "deep_scen_stream",
+			"deep_scen_total_at_or_above_2^32", "deep_prefix_sums_exactly_at_2^31|32|33_plus_minus_1", "deep_values_received_at_or_above_2^31",
+			"deep_ops_via_io.WriteString", "deep_ops_via_io.Copy(WriterTo)", "deep_ops_via_io.Copy(chunked)", "deep_ops_with_several_wrapped_calls",
+			"deep_wrapped_calls_that_blocked", "deep_scen_bursty_consumer", "scen_bursty_with_intermediate_value",
+			"deep_scen_status_refetched_every_receive", "deep_scen_status_fetched_late", "deep_scen_wrapped_is_ReaderFrom"} {
+			if m.Sum[k] == 0 {
+				inc = append(inc, "observed nothing of: "+k)
+			}
 		}
 	}
 	return inc
